@@ -28,8 +28,8 @@ import (
 	"github.com/ipfs/go-log/v2"
 
 	"github.com/keep-network/keep-common/pkg/persistence"
-	kit "github.com/keep-network/keep-core/internal/verifkit"
 	c39 "github.com/keep-network/keep-core/internal/verifc39"
+	kit "github.com/keep-network/keep-core/internal/verifkit"
 	"github.com/keep-network/keep-core/pkg/generator"
 	"github.com/keep-network/keep-core/pkg/internal/tecdsatest"
 )
